@@ -14,7 +14,7 @@ use std::os::fd::AsRawFd;
 use std::os::unix::net::UnixDatagram;
 use std::path::PathBuf;
 use std::sync::atomic::{AtomicU64, Ordering};
-use std::sync::Arc;
+use std::sync::{Arc, Mutex};
 use std::time::Duration;
 
 pub mod interpose {
@@ -35,6 +35,14 @@ fn fresh_dir() -> PathBuf {
     let d = PathBuf::from(format!("/var/tmp/cvh-sock-{}-{}", std::process::id(), DIRN.fetch_add(1, Ordering::Relaxed)));
     let _ = std::fs::remove_dir_all(&d);
     std::fs::create_dir_all(&d).expect("create run dir");
+    d
+}
+
+/// A run directory whose absolute path is longer than a sockaddr_un can hold (108 bytes): sockets in it can only be
+/// reached through a RELATIVE path from inside it - a perfectly legal way to address a Unix socket.
+fn deep_dir() -> PathBuf {
+    let d = fresh_dir().join("d".repeat(60)).join("e".repeat(60));
+    std::fs::create_dir_all(&d).expect("create deep run dir");
     d
 }
 
@@ -103,7 +111,15 @@ fn case_unbuffered(cx: &mut Cx, cs: u64) {
     let mut r = Rng::new(cs);
     let udp = r.chance(1, 2);
     let nonblocking = r.chance(1, 2);
-    let dir = fresh_dir();
+    let relative = !udp && r.chance(1, 3);
+    let dir = if relative { deep_dir() } else { fresh_dir() };
+    let old_cwd = std::env::current_dir().ok();
+    if relative {
+        std::env::set_current_dir(&dir).expect("chdir into the run dir");
+        cx.rep.obs("unix_sinks_addressed_by_relative_path", 1);
+    }
+    let dir_abs = dir.clone();
+    let dir = if relative { PathBuf::from(".") } else { dir };
     let n = r.range(5, 40) as usize;
     cx.rep.eval();
     // receivers: the addressed one and a decoy that must stay empty
@@ -241,7 +257,12 @@ fn case_unbuffered(cx: &mut Cx, cs: u64) {
         }
     }
     drop(sink);
-    let _ = std::fs::remove_dir_all(dir);
+    if let Some(c) = old_cwd {
+        let _ = std::env::set_current_dir(c);
+    }
+    // remove the whole run directory (the deep one is two levels below it)
+    let top: PathBuf = dir_abs.components().take(4).collect();
+    let _ = std::fs::remove_dir_all(top);
 }
 
 // ------------------------------------------------------------------------------------------------
@@ -253,7 +274,8 @@ fn case_buffered(cx: &mut Cx, cs: u64) {
     let udp = r.chance(1, 2);
     let faults = cx.prop == "C07" || (cx.prop == "C14" && r.chance(1, 2));
     let default_cap = r.chance(1, 5);
-    let cap = if default_cap { 512 } else if !udp && r.chance(1, 6) { *r.pick(&[66000usize, 70000, 100000]) } else { *r.pick(&[0usize, 1, 8, 40, 100, 512, 1432, 9000]) };
+    // capacities above what one datagram can carry are legal too (UDP: 65507 bytes; the kernel then refuses with EMSGSIZE)
+    let cap = if default_cap { 512 } else if r.chance(1, 6) { *r.pick(&[66000usize, 70000, 100000]) } else { *r.pick(&[0usize, 1, 8, 40, 100, 512, 1432, 9000]) };
     let dir = fresh_dir();
     cx.rep.eval();
     let udp_recv = UdpSocket::bind("127.0.0.1:0").unwrap();
@@ -263,6 +285,52 @@ fn case_buffered(cx: &mut Cx, cs: u64) {
     unix_recv.set_read_timeout(Some(Duration::from_millis(500))).unwrap();
     // kernel-made faults: a non-blocking Unix socket whose receiver does not read => EAGAIN once the queue is full
     let kernel_eagain = faults && !udp && r.chance(1, 2);
+    // slow server: an ordinary blocking Unix socket whose receiver's queue is full and drained only slowly - writes
+    // wait for room, nothing fails, so everything accepted must arrive exactly once (also what is left at drop)
+    let slow_server = !udp && !faults && cap <= 9000 && r.chance(1, 5);
+    let slow_stop = Arc::new(std::sync::atomic::AtomicBool::new(false));
+    let slow_got: Arc<Mutex<Vec<Vec<u8>>>> = Arc::new(Mutex::new(Vec::new()));
+    let mut slow_thread = None;
+    let mut slow_fillers: Vec<UnixDatagram> = Vec::new();
+    if slow_server {
+        'fill: for _ in 0..4096 {
+            let f = UnixDatagram::unbound().unwrap();
+            f.set_nonblocking(true).unwrap();
+            let mut n = 0;
+            while f.send_to(b"filler", &unix_path).is_ok() {
+                n += 1;
+            }
+            slow_fillers.push(f);
+            if n == 0 {
+                break 'fill;
+            }
+        }
+        let rx = unix_recv.try_clone().unwrap();
+        let (stop, got) = (slow_stop.clone(), slow_got.clone());
+        let mut sr = Rng::new(cs ^ 0x510);
+        slow_thread = Some(std::thread::spawn(move || {
+            rx.set_read_timeout(Some(Duration::from_millis(30))).unwrap();
+            let mut b = vec![0u8; 220000];
+            loop {
+                let stopping = stop.load(Ordering::SeqCst);
+                match rx.recv(&mut b) {
+                    Ok(n) => {
+                        if &b[..n] != b"filler" {
+                            got.lock().unwrap().push(b[..n].to_vec());
+                        }
+                        if !stopping && sr.chance(1, 2) {
+                            std::thread::sleep(Duration::from_micros(sr.range(50, 1500)));
+                        }
+                    }
+                    Err(_) => {
+                        if stopping {
+                            break;
+                        }
+                    }
+                }
+            }
+        }));
+    }
     let sink: Box<dyn MetricSink>;
     let fd;
     let label;
@@ -278,7 +346,7 @@ fn case_buffered(cx: &mut Cx, cs: u64) {
         }
         fd = sock.as_raw_fd();
         sink = Box::new(if default_cap { BufferedUnixMetricSink::from(&unix_path, sock) } else { BufferedUnixMetricSink::with_capacity(&unix_path, sock, cap) });
-        label = if default_cap { "W4-unix-default-capacity" } else { "W4-unix" };
+        label = if slow_server { "W4-unix-slow-server" } else if default_cap { "W4-unix-default-capacity" } else { "W4-unix" };
     }
     let nops = r.range(5, 70) as usize;
     let mut steps: Vec<Step> = Vec::new();
@@ -289,7 +357,7 @@ fn case_buffered(cx: &mut Cx, cs: u64) {
     let p_script = if faults && !kernel_eagain { *r.pick(&[50u64, 200, 500]) } else { 0 };
     for k in 0..nops {
         // receiver behaviour: drain always, except in the kernel-EAGAIN scenario where the queue is left to fill up
-        if !kernel_eagain || r.chance(1, 6) {
+        if !slow_server && (!kernel_eagain || r.chance(1, 6)) {
             loop {
                 if udp {
                     udp_recv.set_nonblocking(true).unwrap();
@@ -334,7 +402,7 @@ fn case_buffered(cx: &mut Cx, cs: u64) {
                 6 => cap + r.range(1, 50) as usize,
                 _ => r.range(0, (cap / 3).max(3) as u64) as usize,
             }
-            .min(if udp { 20000 } else { 150000 });
+            .min(if udp { 90000 } else { 150000 });
             let req = len + 1;
             if req <= cap {
                 if req > cap - fill_hint.min(cap) {
@@ -384,8 +452,40 @@ fn case_buffered(cx: &mut Cx, cs: u64) {
     let recs: Vec<interpose::Rec> = interpose::since(mark).into_iter().filter(|x| x.fd == fd).collect();
     let attempts: Vec<Attempt> = recs.iter().map(|x| Attempt { bytes: Some(x.payload.clone()), out: if x.result >= 0 { AOut::Ok } else if x.errno == EINTR { AOut::Interrupted(x.seq) } else { AOut::Failed(x.seq) } }).collect();
     steps.push(Step { op: Op::Drop, attempts, res: if let Err(p) = dr { Res::Panicked(p) } else { Res::Dropped } });
+    if let Some(t) = slow_thread.take() {
+        slow_stop.store(true, Ordering::SeqCst);
+        let _ = t.join();
+        drop(slow_fillers);
+        // end-to-end oracle of this scenario: no send may have failed, and the server has received every datagram once, in order
+        // (what each send has to carry is the framing model's business below; here: every send succeeded and arrived)
+        let expect: Vec<u8> = steps.iter().flat_map(|s| s.attempts.iter()).filter(|a| matches!(a.out, AOut::Ok)).flat_map(|a| a.bytes.clone().unwrap_or_default()).collect();
+        let got: Vec<u8> = slow_got.lock().unwrap().iter().flatten().copied().collect();
+        let failed = steps.iter().flat_map(|s| s.attempts.iter()).filter(|a| !matches!(a.out, AOut::Ok)).count();
+        cx.rep.obs("slow_server_histories", 1);
+        cx.rep.obs("slow_server_bytes_received", got.len() as u64);
+        if cx.prop == "C06" || cx.prop == "C13" {
+            if failed > 0 || got != expect {
+                let hist: Vec<Json> = steps
+                    .iter()
+                    .map(|s| jobj! {"op" => match &s.op { Op::Emit(m) => format!("emit({} bytes)", m.len()), Op::Flush => "flush".into(), Op::Drop => "drop".into(), Op::Query => "stats".into() },
+                    "sendto" => Json::Arr(s.attempts.iter().map(|a| Json::Str(format!("{:?} -> {:?}", a.bytes.as_ref().map(|b| clip_bytes(b, 50)), a.out))).collect()), "result" => format!("{:?}", s.res)})
+                    .collect();
+                cx.violation(
+                    if cx.prop == "C13" { "C13" } else { "C06" },
+                    "F2",
+                    "slow-server-loss",
+                    format!("[{} cap={}] blocking socket, slow but live server: {} send attempts failed; server received {} bytes, {} were sent", label, cap, failed, got.len(), expect.len()),
+                    jobj! {"embodiment" => label, "capacity" => cap, "history" => Json::Arr(hist)},
+                    cs,
+                );
+                let _ = std::fs::remove_dir_all(dir);
+                return;
+            }
+        }
+    }
     // ---- judge ----
     let mut ck = FrameChecker::new(cap, b"\n");
+    ck.tolerate_f4 = cx.prop == "C07";
     let mut sig = String::new();
     let hist = |steps: &[Step]| -> Json {
         Json::Arr(
@@ -531,14 +631,17 @@ fn case_stats(cx: &mut Cx, cs: u64, enum_pattern: Option<Vec<bool>>) {
     }
     let done = Arc::new(AtomicU64::new(0));
     // every way of building the wrapper must hand the wrapped sink's figures through
-    let qvariant = r.below(4);
+    let qvariant = r.below(6);
     let queue = if through_queue {
         let f = Fwd(base.clone(), done.clone());
         Some(match qvariant {
             0 => QueuingMetricSink::from(f),
             1 => QueuingMetricSink::with_capacity(f, 100_000),
             2 => QueuingMetricSink::builder().with_error_handler(|_e| {}).build(f),
-            _ => QueuingMetricSink::builder().with_capacity(100_000).with_error_handler(|_e| {}).build(f),
+            3 => QueuingMetricSink::builder().with_capacity(100_000).with_error_handler(|_e| {}).build(f),
+            // a tiny queue that overflows: what the queue refuses never reaches the socket and is not the socket's drop
+            4 => QueuingMetricSink::with_capacity(f, 2),
+            _ => QueuingMetricSink::builder().with_error_handler(|_e| {}).with_capacity(1).build(f),
         })
     } else {
         None
